@@ -65,6 +65,17 @@ func (q *Queue) Init(opts *queue.InitOptions) error {
 	q.closed = false
 	q.inflightDrained = false
 	if opts.CleanStart {
+		// The discarded elements are no longer in the queue: tell the notifier so that its counters follow.
+		if n := q.l.Len(); n != 0 && opts.Notifier != nil {
+			var inflight int
+			for e := q.l.Front(); e != nil; e = e.Next() {
+				if e.Value.(*queue.Elem).ID() != 0 {
+					inflight++
+				}
+			}
+			opts.Notifier.NotifyMsgQueueAdded(-n)
+			opts.Notifier.NotifyInflightAdded(-inflight)
+		}
 		q.l = list.New()
 	}
 	q.readBytesLimit = opts.ReadBytesLimit
